@@ -114,12 +114,11 @@ pub fn replay_model(case: &SimCase, out: &SimOut, ms: &mut ModelStats) -> Vec<Mo
         s.firing_now = vec![vec![]; n];
         s.expiring_now = vec![None; n];
     }
-    let aligned = out.trace.len() == out.steps.len()
-        && out
-            .trace
-            .iter()
-            .zip(out.steps.iter())
-            .all(|(a, b)| a.kind == b.kind && a.client == b.client && a.t == b.t && a.id == b.id);
+    let aligned =
+        out.trace.len() == out.steps.len()
+            && out.trace.iter().zip(out.steps.iter()).all(|(a, b)| {
+                a.kind == b.kind && a.client == b.client && a.t == b.t && a.id == b.id
+            });
     fn push(v: &mut Vec<ModelViolation>, prop: &'static str, class: &str, detail: String) {
         if !v.iter().any(|x| x.prop == prop) {
             v.push(ModelViolation {
@@ -175,7 +174,11 @@ pub fn replay_model(case: &SimCase, out: &SimOut, ms: &mut ModelStats) -> Vec<Mo
             }
             if let Some(b) = &s.block {
                 if b.expiry < t && !s.uncertain {
-                    let class = if b.zero { "d6-zero-duration-blocking" } else { "blocking-end-missing" };
+                    let class = if b.zero {
+                        "d6-zero-duration-blocking"
+                    } else {
+                        "blocking-end-missing"
+                    };
                     push(
                         &mut v,
                         "C16",
@@ -218,7 +221,12 @@ pub fn replay_model(case: &SimCase, out: &SimOut, ms: &mut ModelStats) -> Vec<Mo
                 let want = if st.kind == 4 { 1 } else { 2 };
                 let name = KIND_NAMES[st.kind as usize];
                 if st.id >= nm {
-                    push(&mut v, "C17", "unknown-machine", format!("{sn}: {name} for machine {} which does not exist", st.id));
+                    push(
+                        &mut v,
+                        "C17",
+                        "unknown-machine",
+                        format!("{sn}: {name} for machine {} which does not exist", st.id),
+                    );
                 } else {
                     // same-instant ties: an action due now that was superseded at this
                     // very instant may have fired before or after being superseded
@@ -263,7 +271,8 @@ pub fn replay_model(case: &SimCase, out: &SimOut, ms: &mut ModelStats) -> Vec<Mo
                             }
                             let o = old.as_ref().unwrap();
                             if want == 2
-                                && (o.duration, o.bypass, o.replace) != (cur.duration, cur.bypass, cur.replace)
+                                && (o.duration, o.bypass, o.replace)
+                                    != (cur.duration, cur.bypass, cur.replace)
                             {
                                 sides[si].uncertain = true;
                                 ms.uncertain += 1;
@@ -385,7 +394,15 @@ pub fn replay_model(case: &SimCase, out: &SimOut, ms: &mut ModelStats) -> Vec<Mo
             }
             8 => {
                 if st.id >= nm {
-                    push(&mut v, "C18", "unknown-machine", format!("{sn}: TimerBegin for machine {} which does not exist", st.id));
+                    push(
+                        &mut v,
+                        "C18",
+                        "unknown-machine",
+                        format!(
+                            "{sn}: TimerBegin for machine {} which does not exist",
+                            st.id
+                        ),
+                    );
                 } else {
                     let l = &mut sides[si].tb[st.id];
                     let pos = l
@@ -407,7 +424,12 @@ pub fn replay_model(case: &SimCase, out: &SimOut, ms: &mut ModelStats) -> Vec<Mo
             }
             9 => {
                 if st.id >= nm {
-                    push(&mut v, "C18", "unknown-machine", format!("{sn}: TimerEnd for machine {} which does not exist", st.id));
+                    push(
+                        &mut v,
+                        "C18",
+                        "unknown-machine",
+                        format!("{sn}: TimerEnd for machine {} which does not exist", st.id),
+                    );
                 } else {
                     ms.timer_ends += 1;
                     let tie = sides[si].expiring_now[st.id] == Some(t)
@@ -566,11 +588,12 @@ fn judge_suspects(s: &mut Side, sn: &str, now: Option<i128>, v: &mut Vec<ModelVi
         if su.eligible_any || (b.all_bypass && su.bypass_flag && su.token_ok) {
             continue;
         }
-        let class = if su.d7_then || (!b.all_bypass && b.last_bypass && su.bypass_flag && su.token_ok) {
-            "d7-bypass-flag-overwritten"
-        } else {
-            "leak-during-blocking"
-        };
+        let class =
+            if su.d7_then || (!b.all_bypass && b.last_bypass && su.bypass_flag && su.token_ok) {
+                "d7-bypass-flag-overwritten"
+            } else {
+                "leak-during-blocking"
+            };
         if !v.iter().any(|x| x.prop == "C16") {
             v.push(ModelViolation {
                 prop: "C16",
@@ -599,14 +622,25 @@ fn crosscheck_h2(case: &SimCase, out: &SimOut) -> Option<String> {
     let base = case
         .trace
         .iter()
-        .map(|(t, s)| if *s { *t as i128 } else { *t as i128 - case.delay_ns as i128 })
+        .map(|(t, s)| {
+            if *s {
+                *t as i128
+            } else {
+                *t as i128 - case.delay_ns as i128
+            }
+        })
         .min()
         .unwrap_or(off);
     for client in [true, false] {
         let (ms, pf, bf, seed) = if client {
             (&case.mc, case.args.pf_c, case.args.bf_c, case.args.seed)
         } else {
-            (&case.ms, case.args.pf_s, case.args.bf_s, case.args.seed.wrapping_add(1))
+            (
+                &case.ms,
+                case.args.pf_s,
+                case.args.bf_s,
+                case.args.seed.wrapping_add(1),
+            )
         };
         let Ok(mut fw) = Framework::new(
             ms.as_slice(),
@@ -617,7 +651,12 @@ fn crosscheck_h2(case: &SimCase, out: &SimOut) -> Option<String> {
         ) else {
             return None;
         };
-        for (i, st) in out.steps.iter().enumerate().filter(|(_, s)| s.client == client) {
+        for (i, st) in out
+            .steps
+            .iter()
+            .enumerate()
+            .filter(|(_, s)| s.client == client)
+        {
             let ev = match st.kind {
                 0 => crate::fwsim::Ev::NR,
                 1 => crate::fwsim::Ev::PR,
@@ -689,9 +728,15 @@ fn run_model(
     let v = replay_model(case, &out, &mut ms);
     stats.add("probe.action_superseded_before_firing", ms.superseded);
     stats.add("probe.cancel_actions", ms.cancels);
-    stats.add("probe.packet_left_during_blocking_window", ms.tunnel_during_block);
+    stats.add(
+        "probe.packet_left_during_blocking_window",
+        ms.tunnel_during_block,
+    );
     stats.add("probe.overlapping_blocking_actions", ms.overlapping_blocks);
-    stats.add("probe.update_timer_not_changing_timer", ms.timer_updates_not_set);
+    stats.add(
+        "probe.update_timer_not_changing_timer",
+        ms.timer_updates_not_set,
+    );
     stats.add("probe.timer_end", ms.timer_ends);
     stats.add("probe.same_instant_tie_tolerated", ms.ties);
     stats.add("ambiguous_skipped", ms.uncertain);
@@ -736,6 +781,7 @@ impl SimProp for C16 {
             real_components: SIM_REAL.to_vec(),
             stubbed_components: SIM_STUB.to_vec(),
             totality: false,
+            cpu_limit_s: crate::sup::CASE_CPU_LIMIT_S,
             exhaustive: false,
         }
     }
@@ -787,6 +833,7 @@ impl SimProp for C17 {
             real_components: SIM_REAL.to_vec(),
             stubbed_components: SIM_STUB.to_vec(),
             totality: false,
+            cpu_limit_s: crate::sup::CASE_CPU_LIMIT_S,
             exhaustive: false,
         }
     }
@@ -832,6 +879,7 @@ impl SimProp for C18 {
             real_components: SIM_REAL.to_vec(),
             stubbed_components: SIM_STUB.to_vec(),
             totality: false,
+            cpu_limit_s: crate::sup::CASE_CPU_LIMIT_S,
             exhaustive: false,
         }
     }
